@@ -464,9 +464,69 @@ func c01sequences(c *Ctx) {
 	}
 }
 
+// c01longLived: one connection that stays open and carries many requests, small and large, up to a total of
+// several MiB (16 MiB in the thorough tier): every one of them is decoded like the first.
+func c01longLived(c *Ctx) {
+	if !c.Mine() {
+		return
+	}
+	type step struct {
+		n    int // requests
+		size int // bytes of the one attribute value
+	}
+	plans := [][]step{{{300, 10}}, {{40, 65536}, {20, 10}}, {{6, 1 << 20}, {10, 100}}}
+	if c.Thorough() {
+		plans = append(plans, []step{{16, 1 << 20}, {10, 100}}, []step{{70000, 40}})
+	}
+	for pi, plan := range plans {
+		var reqs []*codec.Req
+		var stream []byte
+		id := int64(1)
+		for _, st := range plan {
+			val := strings.Repeat("v", st.size)
+			for i := 0; i < st.n; i++ {
+				id++
+				r := &codec.Req{Op: "add", MsgID: id, DN: fmt.Sprintf("cn=e%d,dc=a", id), Attrs2: []codec.Attr{{Type: "cn", Vals: []string{fmt.Sprintf("e%d", id)}}, {Type: "description", Vals: []string{val}}}}
+				reqs = append(reqs, r)
+				stream = append(stream, r.Bytes()...)
+			}
+		}
+		c.Count("long_lived_connections", 1)
+		vc, _, err := newSeam(stream, 7, nil, quietLogger)
+		if err != nil {
+			continue
+		}
+		for i, r := range reqs {
+			c.Count("decodes", 1)
+			var req *gldap.Request
+			var derr error
+			k := try(func() { req, derr = vc.ReadRequest(i + 1) })
+			if k != "" || derr != nil || req == nil {
+				c.Outcome("long-lived connection :rejected")
+				c.Report("a well-formed request is rejected on a connection that has carried many requests", fmt.Sprintf("plan %d: request #%d of %d after %d bytes on the connection: %v %s", pi, i+1, len(reqs), len(stream), derr, k), c01rep{Req: &codec.Req{Op: r.Op, MsgID: r.MsgID, DN: r.DN}, Note: fmt.Sprintf("long-lived connection plan %d", pi)})
+				break
+			}
+			if f, d := c01diff(r, req); f != "" {
+				c.Outcome("long-lived connection :differs")
+				c.Report(fmt.Sprintf("%s differs from what the client sent on a connection that has carried many requests", f), fmt.Sprintf("plan %d: request #%d: %s", pi, i+1, trunc3(d)), c01rep{Req: &codec.Req{Op: r.Op, MsgID: r.MsgID, DN: r.DN}, Note: fmt.Sprintf("long-lived connection plan %d", pi)})
+				break
+			}
+		}
+		c.Outcome("long-lived connection :served")
+	}
+}
+
+func trunc3(s string) string {
+	if len(s) > 300 {
+		return s[:300] + "..."
+	}
+	return s
+}
+
 func c01run(c *Ctx) {
 	initFilters()
 	c01sequences(c)
+	c01longLived(c)
 	if c.Shard == 0 {
 		c.Count("filters_in_alphabet", int64(len(c01filters)))
 		c.Count("filters_excluded_not_roundtripping_in_go_ldap", int64(len(filtersExcluded)))
